@@ -175,7 +175,12 @@ def _same(a, b):
     return False
 
 
-def _body_std(cols, nrows, mode):
+def _row_labels(nrows, dup_index):
+    # repeated row labels (a concatenation of two batches kept its labels) when asked for: the index is preserved and rows are independent
+    return [7] * nrows if dup_index else [10 + 3 * r for r in range(nrows)]
+
+
+def _body_std(cols, nrows, mode, dup_index=False):
     """mode: 'std' | 'nostd' | 'mapper' | 'df_old' | 'both' | 'neither'"""
     def body():
         from pyrepseq import io
@@ -194,7 +199,7 @@ def _body_std(cols, nrows, mode):
                 missing = bool(sym.sym_bool(f"{c}_{r}_missing")) if may_miss else False
                 s = sym.sym_str(f"{c}_{r}", 1)
                 cells[c].append(None if missing else s)
-        index = [10 + 3 * r for r in range(nrows)]
+        index = _row_labels(nrows, dup_index)
         df = pd_model.DataFrame({c: list(v) for c, v in cells.items()}, index=index)
         before = {c: list(df._cols[c]) for c in df._names}
         before_names, before_index = list(df._names), list(df._index)
@@ -247,7 +252,7 @@ def _body_std(cols, nrows, mode):
     return body
 
 
-def _replay_std(cols, nrows, mode):
+def _replay_std(cols, nrows, mode, dup_index=False):
     def replay(inputs):
         # real pandas; tidytcells (whose answers are outside the claim) is replaced by a recorder so that the documented call
         # per cell can be observed; a second run with the real tidytcells checks what does not depend on its answers
@@ -259,7 +264,7 @@ def _replay_std(cols, nrows, mode):
             mapper = {"foo": source_cols[0]}
             source_cols = ["foo"] + source_cols[1:]
         data = {c: [None if inputs.get(f"{c}_{r}_missing") else inputs[f"{c}_{r}"] for r in range(nrows)] for c in source_cols + ["extra"]}
-        index = [10 + 3 * r for r in range(nrows)]
+        index = _row_labels(nrows, dup_index)
         opts = dict(OPT)
         for b in ("tcr_enforce_functional", "strict_cdr3_standardization", "suppress_warnings"):
             opts[b] = bool(inputs.get(b))
@@ -425,6 +430,10 @@ def conditions(tier):
                 continue
             out.append(Condition(f"C18/standardize_dataframe/{name}/{mode}/rows={nrows}", _body_std(cols, nrows, mode), _replay_std(cols, nrows, mode),
                                  budget=600, models=M, bounds=f"columns {cols}+extra, {nrows} row(s), mode {mode}"))
+    for name, mode in [("mhcb", "std"), ("one", "std"), ("mixed", "mapper")]:
+        out.append(Condition(f"C18/standardize_dataframe/{name}/{mode}/rows=2/repeated-row-labels", _body_std(sets[name], 2, mode, True),
+                             _replay_std(sets[name], 2, mode, True), budget=600, models=M,
+                             bounds=f"columns {sets[name]}+extra, 2 rows carrying the SAME row label, symbolic missing cells, mode {mode}"))
     for mode in ("both", "neither"):
         out.append(Condition(f"C18/standardize_dataframe/{mode}", _body_std(["TRBV"], 1, mode), _replay_std(["TRBV"], 1, mode), budget=60,
                              models=M, bounds=f"df/df_old {mode}"))
